@@ -28,13 +28,13 @@ RS = "black_it.samplers.r_sequence:RSequenceSampler"
 
 
 def run(ctx: Context) -> None:
-    halton_cursor(ctx)
-    halton_function(ctx)
-    rseq_cursor(ctx)
-    reseed(ctx, HS, ["_sequence_index"])
-    reseed(ctx, RS, ["_sequence_index", "_sequence_start"])
-    rseq_scalars(ctx)
-    plumbing(ctx)
+    ctx.rule(halton_cursor)
+    ctx.rule(halton_function)
+    ctx.rule(rseq_cursor)
+    ctx.rule(reseed, HS, ["_sequence_index"])
+    ctx.rule(reseed, RS, ["_sequence_index", "_sequence_start"])
+    ctx.rule(rseq_scalars)
+    ctx.rule(plumbing)
 
 
 def _cursor_writes(f: FuncInfo, attr: str) -> list[ast.stmt]:
